@@ -449,6 +449,51 @@ def run(ctx):
                "while the preferred_address parameter is address-then-port: same size, different value after decoding"
                % (name, ",".join(sorted(e_)), name, ",".join(sorted(d_))))
     ctx.floor("R4", "value codec pairs compared", n4, 5)
+    # ---------------------------------------------------------------- R5: the decoder admits every value the encoder can write
+    ctx.rule("R5", "decoder-side validity checks are no stricter than the wire format: be_new_connection_id_frame rejects exactly "
+                   "retire_prior_to > sequence (RFC 9000 §19.15 allows equality, and the encoder writes such frames)")
+    nd = ctx.anchor("R5", "qbase::frame::new_connection_id::be_new_connection_id_frame")
+    if nd:
+        # guards that lead to an nom Verify error and compare two parsed varints
+        rels = []
+        for sbk in nd.live_blocks():
+            t = nd.term(sbk)
+            if t["t"] != "switch":
+                continue
+            pl = op_place(t["on"])
+            if pl is None or len(pl) != 1:
+                continue
+            for (bb, jj, rv) in nd.defs_of(pl[0]):
+                if jj == "term" and re.search(r"PartialOrd(<.*>)?>?::(gt|ge|lt|le)$|cmp::PartialOrd::(gt|ge|lt|le)$", callee(rv)) and len(rv["args"]) == 2:
+                    # the two fields are the results of the first and the second be_varint call of the parser
+                    vcalls = sorted(i_ for i_, t_ in nd.calls() if callee(t_).endswith("varint::be_varint"))
+                    rpo_ = {b_: k for k, b_ in enumerate(nd._rpo())}
+                    vcalls.sort(key=lambda x: rpo_.get(x, 0))
+                    names = []
+                    for a in rv["args"]:
+                        nm = None
+                        for q in deep_places(nd, a, 6):
+                            for og in nd.trace_local(q[0]):
+                                if og[0] == "call" and callee(og[2]).endswith("varint::be_varint") and og[1] in vcalls[:2]:
+                                    nm = ("sequence", "retire_prior_to")[vcalls.index(og[1])]
+                        names.append(nm)
+                    tr, fa = switch_edges_on_local(nd, sbk)
+                    errs = set(i for (i, j, rv2, line) in agg_sites(nd, r"nom::internal::Err$|^nom::Err$|internal::Err$", "Error"))
+                    err_on_true = any(e in nd.reachable_from(list(tr), avoid={sbk}) for e in errs) and not any(e in nd.reachable_from(list(fa), avoid={sbk}) and
+                                                                                                            e not in nd.reachable_from(list(tr), avoid={sbk}) for e in errs if False)
+                    rels.append((callee(rv).split("::")[-1], names, err_on_true))
+                if jj != "term" and rv[0] == "bin" and rv[1] in ("Gt", "Ge", "Lt", "Le"):
+                    rels.append((rv[1].lower(), [None, None], None))
+        norm = []
+        for (op, names, err_on_true) in rels:
+            if names == ["retire_prior_to", "sequence"]:
+                norm.append(op)
+            elif names == ["sequence", "retire_prior_to"]:
+                norm.append({"gt": "lt", "ge": "le", "lt": "gt", "le": "ge"}[op])
+        ctx.ob("R5", "%s|rejects exactly retire_prior_to > sequence" % nd.short, norm == ["gt"], nd.where(),
+               "comparisons between the two parsed fields, normalised to `retire_prior_to OP sequence` with the error on the true edge: %s — "
+               "`>=` refuses the legal frame that retires every older id (retire_prior_to == sequence): a conforming peer's frame "
+               "becomes a FRAME_ENCODING_ERROR, and encode -> decode is no longer the identity" % norm)
     ctx.assume("put_varint writes exactly VarInt::encoding_size() bytes; put_connection_id writes 1 + len (value-level)")
 
 
